@@ -21,7 +21,7 @@ import (
 // strPool: strings without characters that make the error text ambiguous
 // (no double quote, no "; ", no explanation label) and without rule syntax.
 var strPool = []string{"a", "ab", "abc", "abcd", "abcde", "测", "测试", "测试测", "a测b", "x1", "007", "12", "5", "0", "13812345678", "a@b.cd", "1.5", "x y", "A-B_c", "😀a", "éx",
-	"100%", "%d%s", "%!v", "a/b", "a\\b", "谬误", "丯", "İstanbul", "\u212aelvin", "※‹›‼", "１２３", "12٣", strings.Repeat("x", 63), strings.Repeat("y", 64), strings.Repeat("z", 257)} // (%: the text may end up in a format string; 谬/丯: code points ending in 0x2C / 0x2F; １２３ / 12٣: digits, but not the ASCII ones)
+	"100%", "%d%s", "%!v", "a/b", "a\\b", "谬误", "丯", "İstanbul", "\u212aelvin", "※‹›‼", "１２３", "12٣", "a%41b", "50%25 off", strings.Repeat("x", 63), strings.Repeat("y", 64), strings.Repeat("z", 257)} // (%: the text may end up in a format string; 谬/丯: code points ending in 0x2C / 0x2F; １２３ / 12٣: digits, but not the ASCII ones)
 
 var alphabetRunes = []rune("abcXYZ019 _-.:/测试验证😀é%谬")
 
